@@ -59,3 +59,22 @@ pub fn vmap_owned<T, U, F: FnOnce(T) -> U>(o: Option<T>, f: F) -> (r: Option<U>)
 {
     match o { Some(x) => Some(f(x)), None => None }
 }
+// `.map(f).collect::<Result<Vec<_>, _>>()` over an owned vector: stops at the first Err, otherwise one output per input, in order
+pub fn vtry_map_all<T, U, E, F: Fn(T) -> Result<U, E>>(v: Vec<T>, f: F) -> (r: Result<Vec<U>, E>)
+    requires forall|x: T| f.requires((x,)),
+    ensures r is Ok ==> r->Ok_0@.len() == v@.len() && forall|i: int| 0 <= i < v@.len() ==> f.ensures((v@[i],), Ok(#[trigger] r->Ok_0@[i])),
+{
+    let ghost v0 = v@;
+    let mut out: Vec<U> = Vec::new();
+    for x in it: v.into_iter()
+        invariant v0 == v@, out@.len() == it.index@, 0 <= it.index@ <= v0.len(), forall|x: T| f.requires((x,)),
+            forall|i: int| 0 <= i < it.index@ ==> f.ensures((v0[i],), Ok(#[trigger] out@[i])),
+    {
+        proof { assert(x == v0[it.index@ as int]); }
+        match f(x) {
+            Ok(u) => { out.push(u); }
+            Err(e) => { return Err(e); }
+        }
+    }
+    Ok(out)
+}
